@@ -109,7 +109,7 @@ manifest = {
     "setup_cmd": "cd /verif/sim && CARGO_NET_OFFLINE=true cargo build --offline --profile sim",
     "hooks": {
         "guard": "cargo feature verif-hooks (aldrin-core, aldrin-broker, aldrin); off by default and in no default feature set",
-        "enable": "/verif/sim/Cargo.toml depends on /repo/{core,broker,aldrin} by path with features [verif-hooks, statistics, channel, tokio]; every check runs `cargo build --offline --profile sim` first, so it rebuilds from /repo's working tree",
+        "enable": "/verif/sim/Cargo.toml depends on /repo/{core,broker,aldrin} by path with features [verif-hooks, statistics, introspection, channel, tokio]; every check runs `cargo build --offline --profile sim` first, so it rebuilds from /repo's working tree",
         "baseline_off_cmd": "cd /repo && cargo nextest run --workspace --no-fail-fast --test-threads 8 --offline",
         "source_commits": HOOK_COMMITS,
         "add_only": True,
